@@ -273,6 +273,25 @@ def check_op(case) -> list[Fail]:
     fx, fy = op_facts(x), op_facts(y)
     if fx != fy:
         fails.append(Fail("derived", f"op:{k}:{first_diff(fx, fy)}", f"orig={fx} decoded={fy}"[:300]))
+    # the same through the document writer / reader of a whole HUGR
+    try:
+        import hugr.ops as hops
+        from hugr.hugr import Hugr
+
+        hh = Hugr(hops.Module())
+        hh.add_node(mk_op(op), hh.root)
+        doc = json.loads(hh.to_json())
+        eh = ref.strip_nested_hugr(doc["nodes"][1])
+        wh = ref.enc_op(op, 0)
+        if eh != wh:
+            fails.append(Fail("enc-ref", f"op-in-document:{k}:{first_diff(eh, wh)}", f"got={eh} want={wh}"[:300]))
+        else:
+            h2 = Hugr.load_json(json.dumps(doc))
+            e3 = ref.strip_nested_hugr(dump(h2[Node(1)].op._to_serial(Node(0))))
+            if e3 != wh:
+                fails.append(Fail("fixed-point", f"op-in-document:{k}:{first_diff(e3, wh)}", f"{wh} -> {e3}"[:300]))
+    except Exception as e:  # noqa: BLE001
+        fails.append(exc_fail("document", e))
     gop = ref.general_op(op)
     gen = mk_op(gop)
     gk = gop["k"]
